@@ -26,6 +26,7 @@ use spec::{CentralDirectoryEnd, Zip64CentralDirectoryEndLocator, Zip64CentralDir
 //@include spec/appnote_end.rs
 //@include spec/appnote_headers.rs
 //@include spec/zfd_views.rs
+//@include spec/dir_written.rs
 //@include common/writer_types.rs
 
 // ---- contract-only views of functions proved in units U4, U5, U7a
